@@ -80,6 +80,7 @@ def main():
     compile_errors = {}
     cbmc_args_of = {}
     e2results = {}
+    e2validation = {}
     mem_kb = info.get('mem_kb', 40 * 1024 * 1024)
 
     def run_group(crate, g, jobs, to, tsuffix, label):
@@ -125,6 +126,7 @@ def main():
             return
         tasks = []
         with concurrent.futures.ThreadPoolExecutor(max_workers=max(1, jobs)) as pool:
+            vfut = pool.submit(core.validate_e2, work, seed, info.get('e2_spec_entries'))
             for s in e2specs:
                 if s.parts > 1:
                     futs = [pool.submit(core.run_e2, work, s, known, (i, s.parts)) for i in range(s.parts)]
@@ -136,6 +138,15 @@ def main():
                 e2results[s.name] = core.merge_e2(rs)
                 st = e2results[s.name]
                 core.log(f"[{pid}] mirsym {s.name}: {st['status']} paths={st['stats'].get('paths')} solver_checks={st['stats'].get('solver_checks')} wall={st['stats'].get('wall_s')}s")
+            v = vfut.result()
+            e2validation.update(v)
+            core.log(f"[{pid}] mirsym translator validation: ok={v.get('ok')} compared={v.get('compared')} disagreements={v.get('n_disagreements')} {v.get('error', '')}")
+            if not v.get('ok'):
+                for s in e2specs:
+                    r = e2results[s.name]
+                    r['status'] = 'inconclusive'
+                    r['inconclusive'] = ['translator validation failed (MIR executor disagrees with the native build): ' + json.dumps(v.get('disagreements') or v.get('error'))[:800]] + r.get('inconclusive', [])
+                    r['violations'] = []
 
     threads = []
     n_kani_jobs = args.jobs if not e2specs else max(2, args.jobs // 2)
@@ -314,6 +325,8 @@ def main():
             solver_seconds=round(sum((e.get('solver_s') or 0) for e in hrep), 2),
             inconclusive=[e['harness'] for e in inconclusive],
             known_findings_reproduced=sorted(seen_known),
+            traces_validated_against_impl=e2validation.get('compared', 0),
+            e2_translator_validation=e2validation,
             outside_claim=info.get('outside_claim', []),
             partial=bool(args.only),
         ),
